@@ -234,7 +234,24 @@ def specProgram (prop : String) (c : Cfg) (ws : List Watcher) (_init : List Int)
                 else if st.nevents != 0 || !st.queued.isEmpty then
                   some s!"{st.nevents} events / {st.queued.length} watchers left queued after a top-level statement"
                 else none
-      match e1.orElse (fun _ => e2) |>.orElse (fun _ => e3) with
+      -- C04: an update context in which no callback ran leaves the (non-Event) keys as they were
+      let e4 : Option String :=
+        if prop == "C04" then
+          -- only when the context is the whole top-level statement (nothing after it in the step)
+          match st.items with
+          | [Item.stmt "updateCtx" _ _ _ _ _ _ ch .ok] =>
+            if countCalls 100000 ch != 0 then none else
+            -- the first group of key nodes lists the keys with the values held before
+            (ch.takeWhile (fun (it : Item) => match it with | Item.stmt "key" .. => true | _ => false)).findSome?
+              fun (it : Item) => match it with
+                | Item.stmt "key" p old _ _ _ _ _ _ =>
+                  if p < c.nparams && !c.isEvent p && st.vals.getD p 0 != old then
+                    some s!"update context did not restore p{p} to {old}"
+                  else none
+                | _ => none
+          | _ => none
+        else none
+      match e1.orElse (fun _ => e2) |>.orElse (fun _ => e3) |>.orElse (fun _ => e4) with
       | some s => some s!"step {n}: {s}"
       | none => go (n + 1) rest
   go 0 steps
